@@ -120,7 +120,7 @@ fn fnv64(bs: &[u8]) -> u64 {
     h
 }
 
-/// histories: `H <id> <mode: file|dest|dir|dirlink>`, then `G <hex|NONE>`, `P <hex|->`, `D`, `R`
+/// histories: `H <id> <mode: file|dest|dir|dirlink|fmt>`, then `G <hex|NONE>`, `P <hex|->`, `D`, `R`
 fn fs_main(dir: &str) {
     colored::control::set_override(false);
     std::panic::set_hook(Box::new(|_| {}));
@@ -183,6 +183,7 @@ fn fs_main(dir: &str) {
                     let c = match mode.as_str() {
                         "dir" | "dirlink" => peginator_codegen::Compile::directory(&work),
                         "dest" => peginator_codegen::Compile::file(&src).destination(&dst),
+                        "fmt" => peginator_codegen::Compile::file(&src).format(),
                         _ => peginator_codegen::Compile::file(&src),
                     };
                     c.prefix(prefix.clone()).run()
@@ -222,6 +223,9 @@ fn main() {
         let mut c = peginator_codegen::Compile::file(&args[2]).destination(&args[3]).prefix(prefix);
         if args[5] != "-" {
             c = c.derives(args[5].split(',').map(|s| s.to_string()).collect());
+        }
+        if args.len() >= 7 && args[6] == "fmt" {
+            c = c.format();
         }
         match c.run() {
             Ok(()) => println!("OK"),
